@@ -513,3 +513,45 @@ def analyse_copy_rewrite(P):
     if m.stats['returns'] == 0 and not raw:
         problems.append('no path through the copy returns')
     return problems, stats
+
+
+def analyse_wrapper_push(P, fn):
+    """the public PathMut::symbolic_push of a family: hands the segment to PathMutImpl::symbolic_push on its handle (field 0) and then pushes
+    the EMPTY segment exactly when that returned true (a dot segment) and the path is not empty — the same tail as symbolic_append"""
+    from . import terms
+    b = P.bodies.get(fn)
+    if b is None:
+        return [f'{fn} not found'], {}
+    T = terms.Terms(b)
+    stats = {'tail_paths': 0}
+    problems = []
+
+    def strip(x):
+        while True:
+            if x[0] in ('ref', 'deref'):
+                x = x[1]
+            elif x[0] == 'call' and len(x[2]) == 1 and x[1].rsplit('::', 1)[-1] in ('deref', 'deref_mut', 'as_path', 'as_ref', 'borrow'):
+                x = x[2][0]
+            else:
+                return x
+
+    def is_handle(x):
+        x = strip(x)
+        return x[0] == 'field' and x[2] == 0 and strip(x[1])[:2] == ('arg', 1)
+    sp = [(bi, t) for bi, t in P.calls(b) if (mir.callee(t) or '') == FN]
+    if len(sp) != 1:
+        return [f'{len(sp)} calls of PathMutImpl::symbolic_push (1 expected)'], stats
+    bi0, t0 = sp[0]
+    if not (len(t0['args']) == 2 and is_handle(T.operand(t0['args'][0])) and strip(T.operand(t0['args'][1]))[:2] == ('arg', 2)):
+        problems.append('PathMutImpl::symbolic_push is not called with this handle and the segment argument')
+    if bi0 != 0 and any(bl['term']['k'] == 'call' and (mir.callee(bl['term']) or '').startswith(PRE) for bl in b['blocks'][:bi0]):
+        problems.append('the handle is edited before the symbolic push')
+
+    def atom_of(t):
+        if t[0] == 'call' and t[1].endswith('::is_empty') and len(t[2]) == 1 and is_handle(t[2][0]):
+            return ('PATH_EMPTY', False)
+        return None
+    _tail(b, T, atom_of, is_handle, t0['target'], {-1}, [t0['dest']['local']], problems, stats)
+    if stats['tail_paths'] == 0:
+        problems.append('no path from the symbolic push to the return')
+    return sorted(set(problems)), stats
